@@ -273,20 +273,51 @@ class DictV:
 
 
 class MapV:
-    """dict with symbolic contents: dom : K -> Bool, val : K -> V as python callables over
-    key *terms* plus a list of point updates.  Keys must be values with a z3 encoding
-    (ints, Opaque, tuples thereof).  See lib.map_* for the operations."""
+    """dict with symbolic contents over the universal value sort (pyvc/valenc.py):
+    dom : Val -> Bool, val : Val -> Val, typed by descriptors."""
 
-    __slots__ = ("keysort", "dom", "val", "default_factory", "ident", "valwrap", "valunwrap")
+    __slots__ = ("keysort", "dom", "val", "default_factory", "ident", "desc_key", "desc_val", "touched", "dom0", "val0", "inv")
 
-    def __init__(self, keysort, dom, val, default_factory=None, ident=None, valwrap=None, valunwrap=None):
+    def __init__(self, keysort, dom, val, desc_key, desc_val, default_factory=None, ident=None, touched=None):
         self.keysort = keysort
-        self.dom = dom  # z3 Array(keysort, Bool)
-        self.val = val  # z3 Array(keysort, ValSort)
+        self.dom = dom
+        self.val = val
+        self.dom0 = dom
+        self.val0 = val
+        self.desc_key = desc_key
+        self.desc_val = desc_val
         self.default_factory = default_factory
         self.ident = ident
-        self.valwrap = valwrap  # z3 term -> interpreter value
-        self.valunwrap = valunwrap  # interpreter value -> z3 term
+        self.touched = touched if touched is not None else []
+        self.inv = None  # representation invariant on values: assumed on read, checked on write
+
+    def valwrap(self, I, t):
+        from .valenc import decode
+
+        v = decode(I, self.desc_val, t)
+        if self.inv is not None:
+            c = I.call(self.inv, [v], {}, None)
+            if isinstance(c, SBool):
+                I.ctx.assume(c.t)
+            elif not I.truthy(c):
+                from .engine import PathAbort
+
+                raise PathAbort()
+        return v
+
+    def valunwrap(self, I, v):
+        from .valenc import encode
+
+        if self.inv is not None:
+            c = I.call(self.inv, [v], {}, None)
+            I.ctx.check(c.t if isinstance(c, SBool) else bool(I.truthy(c)), f"map-invariant[{self.ident}]", "")
+        return encode(I, self.desc_val, v)
+
+    def key(self, I, k):
+        t = self.keysort.encode(I, k)
+        self.touched.append(t)
+        I.ghost.trace.append(("map-access", self.ident))
+        return t
 
 
 def is_symbolic(v):
